@@ -248,6 +248,77 @@ theorem capacity_safe (g : Nat → Nat) (hg : ∀ c, c < g c) (n alloc : Nat) (h
     refine ⟨rfl, ?_⟩
     rw [← e]; omega
 
+/-! #### arrays allocated by the readers
+
+The readers (`sbdf_cs_read`, `sbdf_ts_read`, `sbdf_tm_read`) allocate exactly `count` entries, so
+`alloc = calcCap count` does NOT hold for what they return — the hypothesis `hinv` above excludes
+them, and at the excluded point the original code wrote past the array (defect F19, repaired):
+slices carry an `owned` flag, and an owned slice is now always given room for one more entry;
+`sbdf_tm_add` always sizes the array for `count + 1`. -/
+
+/-- a pointer array of the library: who allocated it, how many entries are used / allocated -/
+structure Arr where
+  owned : Bool      -- built by a reader (exact size) rather than grown by the add functions
+  n : Nat
+  alloc : Nat
+  deriving Repr, DecidableEq
+
+/-- what is known about the allocation -/
+def Arr.Inv (g : Nat → Nat) (a : Arr) : Prop :=
+  if a.owned then a.n ≤ a.alloc else a.alloc = calcCap g a.n
+
+/-- `sbdf_ts_add` / `sbdf_cs_add_property` after the repair: grow when full by the capacity rule,
+    or whenever the slice is reader-built; then write slot `n` -/
+def Arr.add (g : Nat → Nat) (a : Arr) : Arr :=
+  ⟨a.owned, a.n + 1, if calcCap g a.n = a.n ∨ a.owned = true then calcCap g (a.n + 1) else a.alloc⟩
+
+/-- every addition writes inside the allocation and keeps the invariant — for arrays grown by
+    the library and for arrays allocated by a reader alike, for every strictly growing step -/
+theorem add_in_bounds (g : Nat → Nat) (hg : ∀ c, c < g c) (a : Arr) (h : a.Inv g) :
+    a.n < (a.add g).alloc ∧ (a.add g).Inv g := by
+  have hge : a.n + 1 ≤ calcCap g (a.n + 1) := aux_ge g hg _ _ _ (by omega)
+  cases ho : a.owned with
+  | true =>
+    simp only [Arr.add, Arr.Inv, ho, or_true, if_true]
+    exact ⟨by omega, hge⟩
+  | false =>
+    simp only [Arr.Inv, ho, Bool.false_eq_true, if_false] at h
+    have := capacity_safe g hg a.n a.alloc h
+    simp only at this
+    simp only [Arr.add, Arr.Inv, ho, Bool.false_eq_true, or_false, if_false]
+    exact ⟨this.2, this.1⟩
+
+/-- `k` additions in a row -/
+def Arr.addN (g : Nat → Nat) : Nat → Arr → Arr
+  | 0, a => a
+  | k + 1, a => Arr.addN g k (a.add g)
+
+/-- any number of additions, starting from a created (empty) or a reader-built (exact) array -/
+theorem adds_in_bounds (g : Nat → Nat) (hg : ∀ c, c < g c) (k : Nat) (a : Arr) (h : a.Inv g) :
+    (Arr.addN g k a).Inv g ∧ (Arr.addN g k a).n = a.n + k := by
+  induction k generalizing a with
+  | zero => exact ⟨h, rfl⟩
+  | succ k ih =>
+    have := ih (a.add g) (add_in_bounds g hg a h).2
+    simp only [Arr.addN]
+    exact ⟨this.1, by rw [this.2]; simp [Arr.add]; omega⟩
+
+theorem created_inv (g : Nat → Nat) : (⟨false, 0, 0⟩ : Arr).Inv g := by
+  simp [Arr.Inv, calcCap, calcCapAux]
+
+theorem reader_built_inv (g : Nat → Nat) (n : Nat) : (⟨true, n, n⟩ : Arr).Inv g := by
+  simp [Arr.Inv]
+
+/-- `sbdf_tm_add` after the repair: the array is sized for `count + 1` on every call, whatever
+    allocated it before -/
+theorem tm_add_in_bounds (g : Nat → Nat) (hg : ∀ c, c < g c) (n : Nat) : n < calcCap g (n + 1) := by
+  have := aux_ge g hg (n + 1 + 1) 0 (n + 1) (by omega)
+  unfold calcCap; omega
+
+/-- the excluded point of the original code, as a concrete instance: a reader-built array of 3
+    entries is full, yet `calcCap 3 = 4 ≠ 3`, so the original rule did not grow it -/
+example : calcCap growLib 3 = 4 ∧ (3 : Nat) ≥ (⟨true, 3, 3⟩ : Arr).alloc := by decide
+
 /-- the library's step is strictly growing -/
 theorem growLib_grows (c : Nat) : c < growLib c := by unfold growLib; omega
 
